@@ -6,19 +6,19 @@ From PV Require Import Num NumR model.Optimiser model.OptSpec proofs.OptStruct p
 Theorem C05_zero_temperature_is_hill_climb :
   forall (fexp : F -> F) (fpow : F -> F -> F) (score : N -> list F -> option F), fexp
     neg_infinity = 0%float -> forall (b : builder NumF) (ps : list (carrier NumF)) (hs : list
-    (handle NumF)) (s0 : F) (draws1 draws2 : list (draw NumF)), b_kt_start NumF b = 0%float ->
-    ratio_ok b -> fnan s0 = false -> Forall thr_ok (draws1 ++ draws2) -> let c := build NumF
-    fpow b in let mid := run NumF fexp score c (init NumF c ps hs s0) draws1 in let fin := run
-    NumF fexp score c (init NumF c ps hs s0) (draws1 ++ draws2) in fleb s0 (score_cur NumF mid)
-    = true /\ fleb (score_cur NumF mid) (score_cur NumF fin) = true.
+    (handle NumF)) (s0 : F) (draws1 draws2 : list (draw NumF)), zero_start b -> fnan s0 = false
+    -> Forall thr_ok (draws1 ++ draws2) -> let c := build NumF fpow b in let mid := run NumF
+    fexp score c (init NumF c ps hs s0) draws1 in let fin := run NumF fexp score c (init NumF c
+    ps hs s0) (draws1 ++ draws2) in fleb s0 (score_cur NumF mid) = true /\ fleb (score_cur NumF
+    mid) (score_cur NumF fin) = true.
 Proof. exact HillClimb.C05_zero_temperature_is_hill_climb. Qed.
 Print Assumptions C05_zero_temperature_is_hill_climb.
 
 Theorem C05_zero_temperature_stays_zero :
   forall (fexp : F -> F) (fpow : F -> F -> F) (score : N -> list F -> option F) (b : builder
     NumF) (ps : list (carrier NumF)) (hs : list (handle NumF)) (s0 : F) (draws : list (draw
-    NumF)), b_kt_start NumF b = 0%float -> ratio_ok b -> let c := build NumF fpow b in kt NumF
-    (run NumF fexp score c (init NumF c ps hs s0) draws) = 0%float.
+    NumF)), zero_start b -> let c := build NumF fpow b in kt NumF (run NumF fexp score c (init
+    NumF c ps hs s0) draws) = 0%float.
 Proof. exact HillClimb.C05_zero_temperature_stays_zero. Qed.
 Print Assumptions C05_zero_temperature_stays_zero.
 
@@ -40,11 +40,22 @@ Theorem C05_worse_over_zero_is_neg_infinity :
 Proof. exact F_sub_div_zero. Qed.
 Print Assumptions C05_worse_over_zero_is_neg_infinity.
 
-Theorem C05_zero_times_cooling_factor :
-  forall r : F, fleb (- big) r = true -> fleb r big = true ->
-    (0 * nmax (NN:=NumF) 0 (1 - r))%float = 0%float.
-Proof. exact F_zero_mul_factor. Qed.
-Print Assumptions C05_zero_times_cooling_factor.
+Theorem C05_zero_times_any_cooling_factor :
+  forall r : F, fmul 0 (nmin (NN:=NumF) (nmax (NN:=NumF) 0%float (fsub 1 r)) (fmax_ NumF)) = 0%float.
+Proof. exact F_zero_mul_any_factor. Qed.
+Print Assumptions C05_zero_times_any_cooling_factor.
+
+Theorem C05_cooling_factor_always_finite :
+  forall r : F, let f := nmin (NN:=NumF) (nmax (NN:=NumF) 0%float (fsub 1 r)) (fmax_ NumF) in ffinite f = true /\
+    BinarySingleNaN.Bsign (PrimFloat.Prim2B f) = false.
+Proof. exact F_factor_always_finite. Qed.
+Print Assumptions C05_cooling_factor_always_finite.
+
+Theorem C05_negative_zero_start_is_zero :
+  forall (fpow : F -> F -> F) (b : builder NumF), zero_start b -> kt_start NumF (build NumF fpow
+    b) = 0%float.
+Proof. exact HillClimb.build_zero_start. Qed.
+Print Assumptions C05_negative_zero_start_is_zero.
 
 Theorem C05_hill_climb_any_num :
   forall (NN : Num) (fexp : carrier NN -> carrier NN) (score : N -> list (carrier NN) -> option
@@ -63,12 +74,12 @@ Proof. exact OptLoop.C05_hill_climb. Qed.
 Print Assumptions C05_hill_climb_any_num.
 
 (* non-vacuity: the premises of C05_zero_temperature_is_hill_climb are met by a concrete
-   configuration (kt_start = 0, kt_finish = 0.001, kt_ratio = 0.5) and concrete draws *)
+   configuration (kt_start = -0.0, kt_finish = 0.001, kt_ratio = -infinity) and concrete draws *)
 Example C05_premises_satisfiable :
-  let b := @mkBuilder NumF 3000%N 0%float (Some 0.001%float) (Some 0.5%float) 0.1%float 1000%N None in
-  b_kt_start NumF b = 0%float /\ ratio_ok b /\ fnan 0.5%float = false
+  let b := @mkBuilder NumF 3000%N (-0)%float (Some 0.001%float) (Some neg_infinity) 0.1%float 1000%N None in
+  zero_start b /\ fnan 0.5%float = false
   /\ Forall thr_ok [@mkDraw NumF 0%nat 0.25%float 0%float; @mkDraw NumF 1%nat (-0.5)%float 0.75%float].
 Proof.
-  cbv zeta. split; [reflexivity|]. split; [split; reflexivity|]. split; [reflexivity|].
+  cbv zeta. split; [reflexivity|]. split; [reflexivity|].
   repeat constructor.
 Qed.
